@@ -203,6 +203,9 @@ def large_cases(run, np, sp, op4):
         cases.append(("cutoff-%d" % nr_, At, None))
     B = np.zeros((70000, 2)); B[5, 0] = 1.5; B[65540:65543, 0] = [1.0, 2.0, 3.0]; B[69999, 1] = 4.0
     cases.append(("rows>=65536", B, None))
+    for nr_ in (65535, 65536, 65537):        # the row count at which nonbigmat requests must turn into bigmat, on both sides
+        Bn = np.zeros((nr_, 2)); Bn[3, 0] = 2.5; Bn[nr_ - 2:, 0] = [1.0, -3.0]; Bn[nr_ - 1, 1] = 4.0
+        cases.append(("rows>=65536" if nr_ >= 65536 else "rows-65535", Bn, None))
     Cm = np.zeros((16390, 1)); Cm[:16383, 0] = np.arange(1, 16384)
     cases.append(("string-16383", Cm, None))
     Dm = np.zeros((16390, 1)); Dm[:16384, 0] = np.arange(1, 16385)
